@@ -843,6 +843,16 @@ class Engine:
         return [(st, 'fall')]
 
     def st_Assign(self, node, st):
+        # numpy basic slicing returns a VIEW: `x = W[u, :]` followed by a write to W would be seen through x.  The encoding gives
+        # slices value semantics, so binding a bare basic slice of an array to a name is refused (no function under contract does it)
+        v0 = node.value
+        if isinstance(v0, ast.Subscript) and isinstance(v0.value, ast.Name) and any(isinstance(t, ast.Name) for t in node.targets):
+            sl = v0.slice
+            parts = sl.elts if isinstance(sl, ast.Tuple) else [sl]
+            if any(isinstance(p_, ast.Slice) for p_ in parts) and not any(isinstance(p_, (ast.Compare, ast.Call, ast.List)) for p_ in parts):
+                base = self.ev(v0.value, st)
+                if isinstance(base, Ref):
+                    raise OutOfSubset('a basic slice (numpy view) is bound to a name: %s' % ast.unparse(node)[:60])
         val = self.ev(node.value, st)
         if isinstance(val, Fork):
             out = []
